@@ -131,4 +131,16 @@ def versionLocations (sep : Sep) (s : Option Name) : Option (List Name) :=
     | [] => none
     | l => some l
 
+/-- the whole `version_locations` computation of `from_config`: the separator option is looked
+    up (and can raise `ValueError` = `none`) only when the option string is non-empty. -/
+def configLocations (pathsep : Char) (sepOpt : Option String) (s : Option Name) :
+    Option (Option (List Name)) :=
+  match s with
+  | none => some none
+  | some [] => some none
+  | some s =>
+    match sepOfOption pathsep sepOpt with
+    | none => none
+    | some sep => some (versionLocations sep (some s))
+
 end Model.Files
